@@ -146,7 +146,7 @@ def feedOp (codec : Nat) (args : List String) : String :=
 
 def encodeOp (k : Nat) (args : List String) : String :=
   match valP.run args with
-  | some (v, []) => hexOfBytes (if k = 2 then encode2 v else if k = 1 then encode1 v else encode3 v)
+  | some (v, []) => hexOfBytes (if k = 2 then encode2 v else if k = 1 then encode1 v else if k = 3 then encode3 v else encode4 v)
   | _ => "bad-op"
 
 def step (line : String) : String :=
@@ -161,6 +161,11 @@ def step (line : String) : String :=
   | "E1" :: args => encodeOp 1 args
   | "E2" :: args => encodeOp 2 args
   | "E3" :: args => encodeOp 3 args
+  | "E4" :: args => encodeOp 4 args
+  | ["EE", h] =>
+    match runP bytesTok h with
+    | some bs => hexOfBytes (encodeErr bs)
+    | none => "bad-op"
   | ["L", h] =>
     match runP bytesTok h with
     | some bs => hexOfBytes (utf8Lossy bs)
